@@ -72,6 +72,22 @@ theorem session_eq_filtered (cs : List Cell) :
       rs' = rs.filter (fun r => !r.isFailed) ∧ observe σf' = observe σf :=
   session_eq_filtered_from State.init init_wf cs
 
+/-- cell by cell: the result of every surviving cell and the observation right after it (stack, contexts reachable from
+stacked big maps, interpreter context) are those of the session without the failing cells -/
+theorem session_trace_eq_filtered_from (σ : State) (hwf : WF σ) (cs : List Cell) :
+    ∃ tr kept tr', trace σ cs = some tr ∧ dropFailing σ cs = some kept ∧ trace σ kept = some tr' ∧
+      tr' = tr.filter (fun r => !r.1.isFailed) := by
+  obtain ⟨a, ha⟩ := exists_rep hwf
+  refine ⟨traceWith true σ cs, dropFailingWith true σ cs, traceWith true σ (dropFailingWith true σ cs),
+    by simp only [trace, config_eq, Option.map_some], by simp only [dropFailing, config_eq, Option.map_some],
+    by simp only [trace, config_eq, Option.map_some], ?_⟩
+  rw [trace_rep ha, trace_rep ha, dropFailing_rep ha, traceP_filtered]
+
+theorem session_trace_eq_filtered (cs : List Cell) :
+    ∃ tr kept tr', trace State.init cs = some tr ∧ dropFailing State.init cs = some kept ∧
+      trace State.init kept = some tr' ∧ tr' = tr.filter (fun r => !r.1.isFailed) :=
+  session_trace_eq_filtered_from State.init init_wf cs
+
 /-- every state a session of a fresh interpreter reaches is well-formed -/
 theorem session_wf (cs : List Cell) : ∃ rs σf, session State.init cs = some (rs, σf) ∧ WF σf := by
   obtain ⟨_, s2⟩ := session_rep rep_init cs
